@@ -432,9 +432,12 @@ func (c *ctxConn) Read(b []byte) (n int, err error) {
 }
 
 func (c *ctxConn) Write(b []byte) (n int, err error) {
+	// written counts the bytes already accepted by the connection: after a short write that ended
+	// in a transient timeout the loop must go on with the rest, not start over.
+	written := 0
 	for {
 		if err = c.writeCtx.Err(); err != nil {
-			return 0, err
+			return written, err
 		}
 
 		deadline := time.Now().Add(c.writeTimeout)
@@ -448,15 +451,16 @@ func (c *ctxConn) Write(b []byte) (n int, err error) {
 			return 0, err
 		}
 
-		n, err = c.conn.Write(b)
+		n, err = c.conn.Write(b[written:])
+		written += n
 		if err != nil {
 			if netErr, ok := err.(net.Error); ok && netErr.Timeout() && netErr.Temporary() {
 				continue
 			}
-			return 0, err
+			return written, err
 		}
 
-		return n, nil
+		return written, nil
 	}
 }
 
